@@ -57,7 +57,7 @@ fn body(ctx: &Ctx) -> (Summary, Meta) {
         },
     );
     let meta = Meta {
-        rule: "every (axis word, boundary configuration) of the alphabet is one built spline (state); every lane x every grid query is compared (A) through end-condition residuals of the pieces recovered from the implementation's samples and (B, n<=7) with the certified exact rational spline. Extra jobs: Periodic on data whose last value misses the first by 2^-20 relative: rejected by build() (counted) or, if accepted, held to the periodic end conditions S'(x0) = S'(xn), S''(x0) = S''(xn). Non-trivial = a lane whose data is not constant.".into(),
+        rule: "every (axis word, boundary configuration) of the alphabet is one built spline (state); every lane x every grid query is compared (A) through end-condition residuals of the pieces recovered from the implementation's samples and (B, n<=7) with the certified exact rational spline. Extra jobs: Periodic on data whose last value misses the first by 2^-22 relative: rejected by build() (counted) or, if accepted, held to the periodic end conditions S'(x0) = S'(xn), S''(x0) = S''(xn). Non-trivial = a lane whose data is not constant.".into(),
         bounds: format!("{} axes: {}; 33 boundary configurations (4 whole-data-set, 3 row, 25 ordered Mixed pairs, 1 heterogeneous per-lane); lanes: unit impulses, 1, x, x^2, x^3, alternating, generic, generic*2^20, 24-bit mantissas; f64 and (mesh ratio <= 8, n <= 7) f32", axes.len(), if ctx.quick() {"full product n=3..5 over {1,2,1/2} x 3 offsets, n=3..4 over {1,8,1/8}, n in {8,12} with <=1 non-unit interval"} else {"full product n=3..7 over {1,2,1/2,4} x 3 offsets, n=3..6 over {1,8,1/8} x 2 offsets, n in {8,12,16,24,40} with <=2 non-unit intervals, n in {8,12} over {1,8,1/8} with <=1"}),
         assumptions: vec![
             "rounding tolerance K*eps*scale with K=256 (mesh ratio<=8) / 16384 (ratio 64), scale from the exact spline (DESIGN.md 2.1)".into(),
